@@ -1146,6 +1146,7 @@ impl BytecodeVM {
                     delegated_iterator: None,
                     is_async: false,
                     throw_value: None,
+                    return_value: None,
                 };
 
                 let gen_obj = super::builtins::generator::create_bytecode_generator_object(
@@ -1183,6 +1184,7 @@ impl BytecodeVM {
                     delegated_iterator: None,
                     is_async: true, // Async generator
                     throw_value: None,
+                    return_value: None,
                 };
 
                 let gen_obj = super::builtins::generator::create_bytecode_generator_object(
@@ -2207,6 +2209,20 @@ impl BytecodeVM {
             // No handler found - store exception for propagation
             self.exception_value = Some(guarded);
             false
+        }
+    }
+
+    /// Inject a return completion at the current position (generator.return()).
+    /// `Some(value)` when the frame is finished, `None` when a finally block has to run
+    /// first (the VM is positioned on it).
+    pub fn inject_return(
+        &mut self,
+        interp: &mut Interpreter,
+        value: JsValue,
+    ) -> Result<Option<Guarded>, JsError> {
+        match self.execute_return(value, interp)? {
+            OpResult::Halt(done) => Ok(Some(done)),
+            _ => Ok(None),
         }
     }
 
